@@ -1391,10 +1391,54 @@ func (x *concExec) checkHistory() {
 				}
 				msg += "\n   " + l
 			}
-			x.fail("R-lin-illegal", "", msg)
+			sub := ""
+			if x.plan.Prop == "C13" && x.inflightStaleOnly(m, ops) {
+				// recorded finding KF-C13-collide-inflight-stale-read: a set updates the tree before
+				// the collision table; while it is in flight one reader can see the new value through
+				// the tree and a later one the previous value through the table
+				sub = "collide-inflight-stale-read:"
+			}
+			x.fail("R-lin-illegal", sub, msg)
 			return
 		}
 	}
+}
+
+// inflightStaleOnly reports whether a non-linearizable history of a colliding key becomes
+// linearizable once the reads of one precise shape are left out: a read that returned an older value
+// although an earlier, already completed read had returned the value of a set that was still in
+// flight when the later read was invoked.
+func (x *concExec) inflightStaleOnly(m porcupine.Model, ops []porcupine.Operation) bool {
+	var kept []porcupine.Operation
+	dropped := 0
+	for _, r := range ops {
+		in := r.Input.(regIn)
+		drop := false
+		if in.Kind == "get" || in.Kind == "meta" {
+			ro := r.Output.(regOut)
+			for _, w := range ops {
+				win := w.Input.(regIn)
+				if win.Kind != "set" || !(w.Call < r.Call && w.Return > r.Call) || ro.WID == win.WID {
+					continue
+				}
+				for _, r1 := range ops {
+					i1 := r1.Input.(regIn)
+					if (i1.Kind == "get" || i1.Kind == "meta") && r1.Return < r.Call && !r1.Output.(regOut).Miss && r1.Output.(regOut).WID == win.WID {
+						drop = true
+					}
+				}
+			}
+		}
+		if drop {
+			dropped++
+			continue
+		}
+		kept = append(kept, r)
+	}
+	if dropped == 0 {
+		return false
+	}
+	return porcupine.CheckOperationsTimeout(m, kept, 20*time.Second) == porcupine.Ok
 }
 
 // checkGCOverlap (C17): at most one pass runs on a bucket at a time.
